@@ -48,7 +48,7 @@ def as_slice(v, kind=None):
     raise Unsupported('as_slice of %s' % type(v).__name__)
 
 def concrete_bytes(items):
-    return bytes(items) if all(isinstance(b, int) for b in items) else None
+    return bytes(items) if all(isinstance(b, int) and not isinstance(b, bool) for b in items) else None
 
 def explode(I, items):
     """byte-level view of string elements: WChar -> its UTF-8 bytes (fresh symbolic bytes tied to the code point)"""
@@ -209,7 +209,7 @@ def m_contains(I, c, args, fr):
                 conds.append(int_eq(ch, p))
         return b_or(*conds)
     if isinstance(pv, int) or is_sym(pv):
-        return b_or(*[int_eq(char_of_nofork(x), pv) for x in items])
+        return b_or(*[elem_is_char(I, x, pv) for x in items])
     if isinstance(pv, (Closure, FnItem)):
         for x in items:
             r = I.call_value(pv, [char_of(I, x)])
@@ -217,6 +217,15 @@ def m_contains(I, c, args, fr):
                 return True
         return False
     raise Unsupported('str::contains pattern %r' % (pv,))
+
+def elem_is_char(I, x, pv):
+    """does string element x equal the char pv?  Composite numeric elements (DecRun / FloatLit) consist of digits (and
+    one '.'): a non-digit, non-'.' char never matches them; anything else about them is outside the model"""
+    if isinstance(x, (DecRun, FloatLit)):
+        if isinstance(pv, int) and not (48 <= pv <= 57 or pv == 46):
+            return False
+        raise Unsupported('character search inside a symbolic number')
+    return int_eq(char_of_nofork(x), pv)
 
 def char_of_nofork(x):
     """char value of an element without forking: a raw symbolic byte b is the char b when b < 0x80; bytes >= 0x80 do
@@ -331,7 +340,7 @@ def m_split_once(I, c, args, fr):
             return none()
         return some(Tup([s.sub(0, i), s.sub(i + len(p), len(items))]))
     for i, x in enumerate(items):
-        if I.ctx.decide(int_eq(char_of_nofork(x), pv)):
+        if I.ctx.decide(elem_is_char(I, x, pv)):
             return some(Tup([s.sub(0, i), s.sub(i + 1, len(items))]))
     return none()
 
@@ -423,7 +432,7 @@ def parse_from_str(I, items, ty, fr):
 def parse_int(I, items, bits, signed):
     """<uN as FromStr>::from_str: optional '+', then 1.. decimal digits, overflow -> Err (PosOverflow)"""
     E = lambda kind: err(Opaque('ParseIntError', kind))
-    if any(isinstance(x, WChar) for x in items):
+    if any(isinstance(x, (WChar, FloatLit)) for x in items):
         return E('InvalidDigit')
     if len(items) == 1 and isinstance(items[0], DecRun):
         d = items[0]
@@ -481,7 +490,7 @@ def bvx(v, bits):
 def parse_float(I, items):
     """<f64 as FromStr>::from_str.  Concrete text -> python float; symbolic text -> fork: Err, or Ok(any f64) when
     the text could be a float literal (over-approximation stated in the evidence: "f64 parsing = any f64")"""
-    b = concrete_bytes(items) if not any(isinstance(x, (WChar, DecRun)) for x in items) else None
+    b = concrete_bytes(items) if not any(isinstance(x, (WChar, DecRun, FloatLit)) for x in items) else None
     if b is not None:
         try:
             s = b.decode()
@@ -493,15 +502,39 @@ def parse_float(I, items):
     if any(isinstance(x, WChar) for x in items):
         return err(Opaque('ParseFloatError'))
     if len(items) == 1 and isinstance(items[0], DecRun):
-        return ok(z3.fpToFPUnsigned(z3.RNE(), items[0].val, z3.Float64()))
+        # an integer text: below 2^53 the f64 is exact; above, it is some f64 >= 2^53 (rounding not modelled: over-approximation,
+        # the witness integer is re-derived from the chosen real when the reply is written out)
+        d = items[0]
+        if I.ctx.decide(z3.ULT(d.val, 1 << 53)):
+            return ok(z3.ToReal(z3.BV2Int(d.val)))
+        r = z3.Real('f64!%d' % I.ctx.nfresh); I.ctx.nfresh += 1
+        I.ctx.assume(r >= z3.RealVal(1 << 53))
+        I.ctx.assume(r <= z3.RealVal(1 << d.bits))
+        d.as_float = r
+        return ok(r)
+    if len(items) == 1 and isinstance(items[0], FloatLit):
+        return ok(items[0].val)
+    if any(isinstance(x, (DecRun, FloatLit)) for x in items):
+        return err(Opaque('ParseFloatError'))
     if not items:
         return err(Opaque('ParseFloatError'))
-    okb = I.ctx.fresh_bool('float_ok')
-    if I.ctx.decide(okb):
-        f = z3.FP('f64!%d' % I.ctx.nfresh, z3.Float64())
-        I.ctx.notes.append(('any_f64', f))
-        return ok(f)
-    return err(Opaque('ParseFloatError'))
+    # free symbolic bytes: too short to spell an interesting number - they parse to an error or to one of the
+    # values their length can spell; the model keeps only the error outcome and the single-digit outcome
+    if len(items) == 1 and is_sym(items[0]):
+        if I.ctx.decide(z3.And(z3.UGE(items[0], 48), z3.ULE(items[0], 57))):
+            return ok(z3.ToReal(z3.BV2Int(items[0] - 48)))
+        return err(Opaque('ParseFloatError'))
+    if all(is_sym(x) or isinstance(x, int) for x in items) and len(items) <= 3:
+        dig = [z3.And(z3.UGE(x, 48), z3.ULE(x, 57)) if is_sym(x) else (48 <= x <= 57) for x in items]
+        if I.ctx.decide(b_and(*dig)):
+            acc = 0
+            for x in items:
+                acc = acc * 10 + (z3.BV2Int(x - 48) if is_sym(x) else x - 48)
+            return ok(z3.ToReal(acc) if is_sym(acc) else float(acc))
+        if I.ctx.decide(b_or(*dig)):
+            raise Unsupported('f64 parse of free bytes that contain digits and other characters')
+        return err(Opaque('ParseFloatError'))
+    raise Unsupported('f64 parse of a long symbolic string')
 
 @model('from_utf8', 'str::from_utf8', 'core::str::from_utf8', 'converts::from_utf8')
 def m_from_utf8(I, c, args, fr):
@@ -1539,3 +1572,76 @@ def m_str_replace(I, c, args, fr):
         else:
             out.append(x)
     return StrBuf(out)
+
+
+@model('String::truncate')
+def m_string_truncate(I, c, args, fr):
+    s = deref(args[0])
+    n = args[1]
+    if is_sym(n):
+        raise Unsupported('symbolic String::truncate length')
+    items = s.b
+    if n < sum(elem_len_(x) for x in items):
+        k = elem_index(items, n)
+        del items[k:]
+    return UNIT
+
+def elem_len_(x):
+    from interp import elem_len
+    return elem_len(x)
+
+@model('String::pop')
+def m_string_pop(I, c, args, fr):
+    s = deref(args[0])
+    if not s.b:
+        return none()
+    return some(char_of(I, s.b.pop()))
+
+@model('String::remove')
+def m_string_remove(I, c, args, fr):
+    s = deref(args[0])
+    k = elem_index(s.b, args[1])
+    if k >= len(s.b):
+        raise Panic('cannot remove a char from the end of a string')
+    return char_of(I, s.b.pop(k))
+
+@model('String::insert')
+def m_string_insert(I, c, args, fr):
+    s = deref(args[0])
+    k = elem_index(s.b, args[1])
+    tmp = []
+    push_char(I, tmp, args[2])
+    s.b[k:k] = tmp
+    return UNIT
+
+@model('String::insert_str')
+def m_string_insert_str(I, c, args, fr):
+    s = deref(args[0])
+    k = elem_index(s.b, args[1])
+    s.b[k:k] = as_items(args[2])
+    return UNIT
+
+@model('String::split_off')
+def m_string_split_off(I, c, args, fr):
+    s = deref(args[0])
+    k = elem_index(s.b, args[1])
+    tail = StrBuf(s.b[k:])
+    del s.b[k:]
+    return tail
+
+@model('String::retain')
+def m_string_retain(I, c, args, fr):
+    s = deref(args[0])
+    keep = []
+    for x in s.b:
+        if I.ctx.decide(I.call_value(args[1], [char_of(I, x)])):
+            keep.append(x)
+    s.b[:] = keep
+    return UNIT
+
+@model('String::from_utf8_lossy')
+def m_from_utf8_lossy(I, c, args, fr):
+    r = m_from_utf8(I, c, args, fr)
+    if r.variant == 'Ok':
+        return Adt('Cow', 'Borrowed', 0, [r.fields[0]])
+    raise Unsupported('from_utf8_lossy on invalid data')
